@@ -65,7 +65,8 @@ def draw(rng, dt):
 
 
 def np_col(vals, dt):
-    return np.array([float(v) if dt[0] == "f" else int(v) for v in vals], dtype=dt)
+    from .predfam import with_memory_layout
+    return with_memory_layout(np.array([float(v) if dt[0] == "f" else int(v) for v in vals], dtype=dt))
 
 
 def gen_table(rng):
